@@ -67,7 +67,31 @@ HARMLESS = [
 ]
 
 
+ALL = [f"C{i:02d}" for i in range(1, 21)]
+# consistent renamings of an identifier in every file (word-boundary textual replace): harmless by construction
+RENAMINGS = [
+ ("rename-private-parser-method", "_process_operand_elem", "_normalise_operand", ["C06", "C08", "C09", "C10", "C16"]),
+ ("rename-private-regex-former", "_form_regex_without_time", "_regex_once", ["C01", "C02", "C07", "C11"]),
+ ("rename-get-regex", "get_regex", "as_regex", ALL),
+ ("rename-macro-recursion", "_apply_macro_recursively", "_expand_in", ["C13", "C19", "C17"]),
+ ("rename-macro-name-collector", "_collect_macro_names", "_names_in", ["C13", "C19"]),
+ ("rename-driver-method", "_do_matching_and_get_result", "_run_matching", ["C11", "C12", "C14", "C18", "C20", "C17"]),
+ ("rename-capture-index", "get_capture_index", "index_of", ["C05", "C07"]),
+ ("rename-captures-manager-class", "CapturesManager", "CaptureTable", ["C05", "C14"]),
+ ("rename-stream-field", "_all_instructions", "_stream_text", ["C10", "C11", "C12"]),
+ ("rename-load-sections", "_load_sections", "_read_sections", ["C14", "C15", "C17"]),
+ ("rename-section-flags", "_form_section_flags", "_section_args", ["C15"]),
+ ("rename-valid-addr-observer", "ValidAddrObserver", "AddressRangeTagger", ["C18", "C12"]),
+ ("rename-resolver-iter", "_iter_items_with_path", "_walk", ["C13"]),
+ ("rename-args-mapping", "get_args_mapping_dict", "mapping_for", ["C13"]),
+ ("rename-times-regex", "get_min_max_regex", "quantifier_text", ["C02", "C03", "C04"]),
+ ("rename-deref-former", "_get_regex_from_full_deref", "_full_form", ["C06", "C05"]),
+]
+
+
 def run(entry, expect):
+    if len(entry) == 4:
+        return run_rename(entry)
     ident, f, old, new, props = entry
     S = tempfile.mkdtemp(prefix="vfself.")
     try:
@@ -94,10 +118,40 @@ def run(entry, expect):
         shutil.rmtree(S, ignore_errors=True)
 
 
+def run_rename(entry):
+    import re
+    ident, old, new, props = entry
+    S = tempfile.mkdtemp(prefix="vfself.")
+    try:
+        os.makedirs(os.path.join(S, "src"))
+        shutil.copytree("/repo/src/jasm", os.path.join(S, "src", "jasm"))
+        shutil.copytree("/repo/tests/macros", os.path.join(S, "tests", "macros"))
+        shutil.copy("/repo/pyproject.toml", S)
+        n = 0
+        for dp, _d, fns in os.walk(os.path.join(S, "src")):
+            for fn in fns:
+                if fn.endswith(".py"):
+                    p = os.path.join(dp, fn)
+                    t = open(p).read()
+                    t2, k = re.subn(r"\b" + re.escape(old) + r"\b", new, t)
+                    if k:
+                        open(p, "w").write(t2)
+                        n += k
+        if not n:
+            return ident, "DID-NOT-APPLY", {}
+        res = {}
+        for pr in props:
+            r = subprocess.run([os.path.join(V, "check"), pr], capture_output=True, text=True, env=dict(os.environ, JASM_REPO=S))
+            res[pr] = r.returncode
+        return ident, "as-expected" if all(v == 0 for v in res.values()) else "UNEXPECTED", res
+    finally:
+        shutil.rmtree(S, ignore_errors=True)
+
+
 def main():
     flt = sys.argv[1] if len(sys.argv) > 1 else ""
     out = []
-    for kind, lst, expect in (("breaking", BREAKING, "violation"), ("harmless", HARMLESS, "ok")):
+    for kind, lst, expect in (("breaking", BREAKING, "violation"), ("harmless", HARMLESS, "ok"), ("renaming", RENAMINGS, "ok")):
         for e in lst:
             if flt and flt not in e[0] and flt != kind:
                 continue
